@@ -210,6 +210,7 @@ type SchedSpec struct {
 	StarvePct int     `json:"starve_pct,omitempty"`
 	StarveMax int     `json:"starve_max,omitempty"`
 	MaxSteps  int64   `json:"max_steps,omitempty"`
+	FairSteps int64   `json:"fair_steps,omitempty"`
 }
 
 // Scenario is one generated client program plus configuration.
